@@ -15,6 +15,8 @@ type ODProfile struct {
 	EmptyStart bool // the deployment may start with a template without phases
 	Limits     bool // vary revisionHistoryLimit
 	Slices     bool
+	// FinalDelete may end the scenario with the deletion of the deployment (cascading teardown through the garbage collector).
+	FinalDelete bool
 }
 
 // ODGen is the generated ObjectDeployment scenario.
@@ -147,6 +149,12 @@ func GenOD(w *World, prof ODProfile) *Scenario {
 				_, _ = w.TP("user", w.Mgmt).Mutate(g.Key, func(o store.Obj) { delete(o["spec"].(map[string]any), "paused") })
 			}})
 		}
+	}
+	if prof.FinalDelete && s.Chance(2, 3, "final-delete") {
+		prop := []string{"Background", "Foreground"}[s.Intn(2, "delete-propagation")]
+		sc.UserOps = append(sc.UserOps, UserOp{Label: fmt.Sprintf("delete od-1 (%s)", prop), Do: func(w *World) {
+			_ = w.TP("user", w.Mgmt).Delete(g.Key, prop)
+		}})
 	}
 	w.AddAgent(wl)
 	if w.Host != nil {
